@@ -45,7 +45,7 @@ def run(tier, seed, replay):
     binary = vlib.build_binary()
     rng = random.Random(seed)
     n = 1200 if tier == "quick" else 12000
-    texts = risk_programs(rng) + tg.repo_corpus()
+    texts = risk_programs(rng) + tg.repo_corpus() + tg.edge_texts()
     texts += [tg.program(rng, nlines=rng.randrange(0, 16)) for _ in range(n)]
     texts += [tg.mutate_chars(rng, tg.program(rng), 1) for _ in range(n // 2)]
     shapes = tg.all_shapes()
@@ -99,7 +99,9 @@ def run(tier, seed, replay):
     script = []
     starts = []
     for i, t in enumerate(tsample):
-        fp = os.path.join(d, "t%d.asm" % i)
+        # file names matter too: the program pane shows the name (short, long, multi-byte, cut positions inside a character)
+        stem = ["t%d", "blatt-3-zähler-mit-überlauf-v2-%d", "€€€€€€€€€€€€€€€€€€€€€€€€€€€€€€-%d", "a-very-long-program-file-name-that-does-not-fit-into-the-side-bar-%d", "😀%d"][i % 5]
+        fp = os.path.join(d, (stem % i) + ".asm")
         open(fp, "w").write(t)
         starts.append(len(script))
         script += ["new", "size 120 45"] + [tc.key_line(k) for k in tc.type_line("load " + fp)] + ["enter", "enter", "draw", "size 80 24", "draw"]
